@@ -420,6 +420,33 @@ def extract(bdir):
     out.append("/-- src/backend.c set_heart_beat, append branch: (heart_beat_ticks, time_to_heart_beat) of the new entry -/\n"
                "def appendStore (to : Int) : Int × Int :=\n  (%s,\n   %s)\n" % (sy.state["ticks"], sy.state["interval"]))
 
+    import re as _re0
+    flagdefs = open(os.path.join(E.REPO, "lib/lpc/object.h")).read()
+    m0 = _re0.search(r"#define\s+O_ENABLE_COMMANDS\s+(0x[0-9a-fA-F]+|\d+)", flagdefs)
+    if not m0:
+        raise TieBroken("call_heart_beat:call-frame", "O_ENABLE_COMMANDS not found in lib/lpc/object.h")
+    o_enable = int(m0.group(1), 0)
+
+    def dref(n):
+        n = strip(n)
+        while n.get("kind") == "ImplicitCastExpr":
+            n = strip(kids(n)[0])
+        return n.get("referencedDecl", {}).get("name") if n.get("kind") == "DeclRefExpr" else None
+
+    def is_zero(n):
+        n = strip(n)
+        while n.get("kind") in ("ImplicitCastExpr", "CStyleCastExpr"):
+            n = strip(kids(n)[0])
+        return n.get("kind") == "IntegerLiteral" and int(n["value"]) == 0
+
+    def assign_of(n):
+        """(lhs global name, rhs node) of a plain assignment statement, else None"""
+        if n.get("kind") == "BinaryOperator" and n.get("opcode") == "=":
+            a, b = kids(n)
+            if dref(a):
+                return dref(a), b
+        return None
+
     # ---------------- f_set_heart_beat ------------------------------------------------------------------------
     ef = body_of(ast_function(bdir, "lib/efuns/heart_beat.c", "f_set_heart_beat"))
     sy = Sym("f_set_heart_beat:argument", [], {}, [])
@@ -500,6 +527,197 @@ def extract(bdir):
     out.append("/-- src/backend.c call_heart_beat, last statement of the loop body: (new heart_beat_index, leave the loop) -/\n"
                "def loopStep (heart_beat_index num_hb_to_do : Int) : Int × Bool :=\n  (%s,\n   decide %s)\n"
                % (sy.state["heart_beat_index"], sy.brk))
+    # ---------------- set_heart_beat, removal branch: the search loop and the memmove ---------------------------------
+    rk = kids(removal)
+
+    def deref_ob_eq(n):
+        """heart_beats[index].ob == ob"""
+        n = strip(n)
+        if n.get("kind") != "BinaryOperator" or n.get("opcode") != "==":
+            return False
+        a, b = (strip(x) for x in kids(n))
+        while a.get("kind") == "ImplicitCastExpr":
+            a = strip(kids(a)[0])
+        while b.get("kind") == "ImplicitCastExpr":
+            b = strip(kids(b)[0])
+        if a.get("kind") != "MemberExpr" or a.get("name") != "ob":
+            return False
+        sub_ = strip(kids(a)[0])
+        if sub_.get("kind") != "ArraySubscriptExpr":
+            return False
+        base, ix = kids(sub_)
+        base = strip(base)
+        while base.get("kind") == "ImplicitCastExpr":
+            base = strip(kids(base)[0])
+        ix = strip(ix)
+        while ix.get("kind") == "ImplicitCastExpr":
+            ix = strip(kids(ix)[0])
+        return base.get("referencedDecl", {}).get("name") == "heart_beats" and ix.get("referencedDecl", {}).get("name") == "index" \
+            and b.get("kind") == "DeclRefExpr" and b.get("referencedDecl", {}).get("name") == "ob"
+    wl = [i for i, st in enumerate(rk) if st.get("kind") == "WhileStmt"]
+    if len(wl) != 1 or wl[0] == 0:
+        raise TieBroken("set_heart_beat:search", "expected exactly one search loop in the removal branch")
+    sy = Sym("set_heart_beat:search", ["index", "num_hb_objs"], {}, ["index", "num_hb_objs"])
+    sy.run(rk[:wl[0]])
+    s_start = sy.state["index"]
+    scond, sbody = kids(rk[wl[0]])
+    sy = Sym("set_heart_beat:search", ["index", "num_hb_objs"], {}, ["index", "num_hb_objs"])
+    try:
+        s_cont = sy.as_prop(sy.expr(scond))
+    except OutOfGrammar as e:
+        raise TieBroken("set_heart_beat:search", "search loop condition left the grammar: %s" % e)
+    s_next = sy.state["index"]
+    sb = kids(sbody) if sbody.get("kind") == "CompoundStmt" else [sbody]
+    if len(sb) != 1 or sb[0].get("kind") != "IfStmt" or not deref_ob_eq(kids(sb[0])[0]) or len(kids(sb[0])) != 2 or \
+            not any(x.get("kind") == "BreakStmt" for x in walk(kids(sb[0])[1])) or \
+            Sym("x", ["index", "num_hb_objs", "heart_beat_index", "num_hb_to_do"], {}, []).writes_tracked(sbody):
+        raise TieBroken("set_heart_beat:search", "the body of the search loop is not `if (heart_beats[index].ob == ob) break;`")
+    miss = rk[wl[0] + 1]
+    sy = Sym("set_heart_beat:search", ["index"], {}, ["index"])
+    if miss.get("kind") != "IfStmt" or not any(x.get("kind") == "ReturnStmt" for x in walk(kids(miss)[1])):
+        raise TieBroken("set_heart_beat:search", "no `if (index < 0) return` after the search loop")
+    try:
+        s_miss = sy.as_prop(sy.expr(kids(miss)[0]))
+    except OutOfGrammar as e:
+        raise TieBroken("set_heart_beat:search", "not-found test left the grammar: %s" % e)
+    info["search"] = [s_start, s_next, s_cont, s_miss]
+    out.append("/-- src/backend.c set_heart_beat, removal: `index = num_hb_objs; while (index--) if (heart_beats[index].ob == ob) break;\n"
+               "    if (index < 0) return 0;` - start value, one evaluation of the loop condition (new index, go on), not-found test -/\n"
+               "def searchStart (num_hb_objs : Int) : Int := %s\n"
+               "def searchNext (index : Int) : Int × Bool := (%s, decide %s)\n"
+               "def searchMiss (index : Int) : Bool := decide %s\n" % (s_start.replace("index", "num_hb_objs") if s_start == "index" else s_start,
+                                                                         s_next, s_cont, s_miss))
+
+    def ptr_off(n):
+        """offset (in elements) of a pointer expression based on heart_beats"""
+        n = strip(n)
+        while n.get("kind") in ("ImplicitCastExpr", "CStyleCastExpr"):
+            n = strip(kids(n)[0])
+        if n.get("kind") == "DeclRefExpr" and n.get("referencedDecl", {}).get("name") == "heart_beats":
+            return "0"
+        if n.get("kind") == "BinaryOperator" and n.get("opcode") == "+":
+            a, b = kids(n)
+            pa = None
+            try:
+                pa = ptr_off(a)
+            except OutOfGrammar:
+                pa = None
+            if pa is not None:
+                return "(%s + %s)" % (pa, mv.as_int(mv.expr(b))) if pa != "0" else mv.as_int(mv.expr(b))
+            return "(%s + %s)" % (mv.as_int(mv.expr(a)), ptr_off(b))
+        raise OutOfGrammar("pointer expression not based on heart_beats")
+    mv = Sym("set_heart_beat:memmove", ["index", "num_hb_objs", "num"], {}, ["index", "num_hb_objs"])
+    mv.state["num"] = "0"
+    mm = [x for st in rk[wl[0] + 2:] for x in walk(st) if x.get("kind") == "CallExpr" and Sym.callee(x) in ("memmove", "memcpy")]
+    if len(mm) != 1:
+        raise TieBroken("set_heart_beat:memmove", "expected exactly one memmove in the removal branch")
+    try:
+        move = None
+        for st in rk[wl[0] + 2:]:
+            if any(x is mm[0] for x in walk(st)):
+                if st.get("kind") != "IfStmt" or len(kids(st)) != 2:
+                    raise OutOfGrammar("memmove is not guarded by a plain if")
+                guard = mv.as_prop(mv.expr(kids(st)[0]))
+                a = kids(mm[0])
+                cnt = strip(a[3])
+                while cnt.get("kind") in ("ImplicitCastExpr", "CStyleCastExpr"):
+                    cnt = strip(kids(cnt)[0])
+                if cnt.get("kind") != "BinaryOperator" or cnt.get("opcode") != "*":
+                    raise OutOfGrammar("memmove length is not count * sizeof")
+                parts = [strip(x) for x in kids(cnt)]
+                sz = [x for x in parts if x.get("kind") == "UnaryExprOrTypeTraitExpr"]
+                other = [x for x in parts if x.get("kind") != "UnaryExprOrTypeTraitExpr"]
+                if len(sz) != 1 or sz[0].get("name") != "sizeof" or "heart_beat_t" not in json.dumps(sz[0].get("argType", {})):
+                    raise OutOfGrammar("memmove length is not a multiple of sizeof (heart_beat_t)")
+                o = other[0]
+                while o.get("kind") in ("ImplicitCastExpr", "CStyleCastExpr"):
+                    o = strip(kids(o)[0])
+                move = (ptr_off(a[1]), ptr_off(a[2]), mv.as_int(mv.expr(o)), guard)
+            elif mv.relevant(st):
+                mv.stmt(st)
+        if move is None:
+            raise OutOfGrammar("memmove statement not found at the top level of the removal branch")
+    except OutOfGrammar as e:
+        raise TieBroken("set_heart_beat:memmove", "the memmove of the removal branch left the grammar: %s" % e)
+    info["rmMove"] = list(move) + [mv.state["num_hb_objs"]]
+    out.append("/-- src/backend.c set_heart_beat, removal of the entry at `index`: memmove (heart_beats + dst, heart_beats + src,\n"
+               "    cnt * sizeof (heart_beat_t)) under its guard, then the new num_hb_objs: (dst, src, cnt, guard, num_hb_objs) -/\n"
+               "def rmMove (index num_hb_objs : Int) : Int × Int × Int × Bool × Int :=\n  (%s,\n   %s,\n   %s,\n   decide %s,\n   %s)\n"
+               % (move[0], move[1], move[2], move[3], mv.state["num_hb_objs"]))
+
+    # ---------------- query_heart_beat: which field is returned ---------------------------------------------------------
+    qfn = ast_function(bdir, "src/backend.c", "query_heart_beat")
+    rets = [x for x in walk(qfn) if x.get("kind") == "ReturnStmt"]
+    fields = []
+    for r_ in rets:
+        v = strip(kids(r_)[0]) if kids(r_) else {}
+        while v.get("kind") in ("ImplicitCastExpr", "CStyleCastExpr"):
+            v = strip(kids(v)[0])
+        if v.get("kind") == "IntegerLiteral" and int(v["value"]) == 0:
+            fields.append(0)
+        elif v.get("kind") == "MemberExpr" and v.get("name") == "time_to_heart_beat":
+            fields.append(1)
+        elif v.get("kind") == "MemberExpr" and v.get("name") == "heart_beat_ticks":
+            fields.append(2)
+        else:
+            raise TieBroken("query_heart_beat:return", "query_heart_beat returns something the translator does not know")
+    info["queryReturns"] = fields
+    out.append("/-- src/backend.c query_heart_beat, its return statements in source order: 0 = `return 0`, 1 = the interval\n"
+               "    (time_to_heart_beat) of the matching entry, 2 = its countdown (heart_beat_ticks) -/\n"
+               "def queryReturns : List Nat := %s\n" % str(fields))
+
+    # ---------------- reload_object / clone_object: the heart-beat switch-off comes before create() ---------------------
+    def order_of(fn_name, relsrc, site, recognisers):
+        fn_ = ast_function(bdir, relsrc, fn_name)
+        tops = kids(body_of(fn_))
+        where_ = {k: [] for k in recognisers}
+        for i, st in enumerate(tops):
+            for k, rec in recognisers.items():
+                if rec(st):
+                    where_[k].append(i)
+        if any(len(v) != 1 for v in where_.values()):
+            raise TieBroken(site, "%s: expected each of the statements once at top level, found %s"
+                            % (fn_name, {k: len(v) for k, v in where_.items()}))
+        n_shb = sum(1 for x in walk(fn_) if x.get("kind") == "CallExpr" and Sym.callee(x) == "set_heart_beat")
+        if n_shb != 1:
+            raise TieBroken(site, "%s calls set_heart_beat %d times" % (fn_name, n_shb))
+        return [k for k, _ in sorted(where_.items(), key=lambda kv: kv[1][0])]
+
+    def shb_zero_call(st, var):
+        for x in walk(st):
+            if x.get("kind") == "CallExpr" and Sym.callee(x) == "set_heart_beat":
+                a = kids(x)
+                return dref(a[1]) == var and is_zero(a[2])
+        return False
+
+    def clears_enable(st):
+        return st.get("kind") == "CompoundAssignOperator" and st.get("opcode") == "&=" and \
+            any(x.get("kind") == "IntegerLiteral" and int(x["value"]) == o_enable for x in walk(st))
+    rorder = order_of("reload_object", "lib/lpc/object.c", "reload_object:order", {
+        0: clears_enable,
+        1: lambda st: st.get("kind") == "CallExpr" and shb_zero_call(st, "obj"),
+        2: lambda st: st.get("kind") == "CallExpr" and Sym.callee(st) == "call_create"})
+    info["reloadOrder"] = rorder
+    out.append("/-- lib/lpc/object.c reload_object: order of 0 = `obj->flags &= ~O_ENABLE_COMMANDS`, 1 = `set_heart_beat (obj, 0)`,\n"
+               "    2 = `call_create (obj, 0)` -/\n"
+               "def reloadOrder : List Nat := %s\n" % str(rorder))
+    m1 = _re0.search(r"#define\s+O_HEART_BEAT\s+(0x[0-9a-fA-F]+|\d+)", flagdefs)
+    o_hb = int(m1.group(1), 0) if m1 else None
+
+    def blueprint_off(st):
+        if st.get("kind") != "IfStmt" or len(kids(st)) != 2 or not shb_zero_call(kids(st)[1], "ob"):
+            return False
+        c = strip(kids(st)[0])
+        return any(x.get("kind") == "IntegerLiteral" and int(x["value"]) == o_hb for x in walk(c)) and \
+            any(x.get("kind") == "MemberExpr" and x.get("name") == "flags" for x in walk(c))
+    corder = order_of("clone_object", "src/simulate.c", "clone_object:order", {
+        0: blueprint_off,
+        1: lambda st: st.get("kind") == "CallExpr" and Sym.callee(st) == "call_create"})
+    info["cloneOrder"] = corder
+    out.append("/-- src/simulate.c clone_object: order of 0 = `if (ob->flags & O_HEART_BEAT) set_heart_beat (ob, 0)` on the blueprint,\n"
+               "    1 = `call_create (new_ob, num_arg)` -/\n"
+               "def cloneOrder : List Nat := %s\n" % str(corder))
+
     # ---------------- call_heart_beat: the frame of a round (entry, exit, no round at all) ---------------------------
     ctop = kids(body_of(chb))
     ifpos = [i for i, st in enumerate(ctop) if st.get("kind") == "IfStmt" and any(x is loops[0] for x in walk(st))]
@@ -546,13 +764,6 @@ def extract(bdir):
                    % (doc, name, sy.state["heart_beat_index"], sy.state["num_hb_to_do"], sy.state["current_heart_beat"]))
 
     # ---------------- call_heart_beat: the statements around the call of heart_beat() --------------------------------
-    import re as _re0
-    flagdefs = open(os.path.join(E.REPO, "lib/lpc/object.h")).read()
-    m0 = _re0.search(r"#define\s+O_ENABLE_COMMANDS\s+(0x[0-9a-fA-F]+|\d+)", flagdefs)
-    if not m0:
-        raise TieBroken("call_heart_beat:call-frame", "O_ENABLE_COMMANDS not found in lib/lpc/object.h")
-    o_enable = int(m0.group(1), 0)
-
     def find_block(n):
         """the compound statement that directly holds the call_function statement"""
         if n.get("kind") == "CompoundStmt":
@@ -567,26 +778,6 @@ def extract(bdir):
     blk = find_block(wbody)
     if blk is None:
         raise TieBroken("call_heart_beat:call-frame", "call_function is not a direct statement of a block of the loop body")
-
-    def dref(n):
-        n = strip(n)
-        while n.get("kind") == "ImplicitCastExpr":
-            n = strip(kids(n)[0])
-        return n.get("referencedDecl", {}).get("name") if n.get("kind") == "DeclRefExpr" else None
-
-    def is_zero(n):
-        n = strip(n)
-        while n.get("kind") in ("ImplicitCastExpr", "CStyleCastExpr"):
-            n = strip(kids(n)[0])
-        return n.get("kind") == "IntegerLiteral" and int(n["value"]) == 0
-
-    def assign_of(n):
-        """(lhs global name, rhs node) of a plain assignment statement, else None"""
-        if n.get("kind") == "BinaryOperator" and n.get("opcode") == "=":
-            a, b = kids(n)
-            if dref(a):
-                return dref(a), b
-        return None
 
     def frame_code(st):
         a = assign_of(st)
